@@ -238,6 +238,8 @@ class WSStream:
                 )
                 await self.app_put({"type": "websocket.connect"})
         elif isinstance(event, (Body, Data)) and not self.handshake.accepted:
+            if self.state != ASGIWebsocketState.HANDSHAKE:
+                return  # Already denied (and answered), nothing is expected nor read
             self.closed = True  # Before responding, so the app cannot also respond
             await self._send_error_response(400)
             if self.app_put is not None:
